@@ -64,6 +64,10 @@ CLAIMS = {
             "Bounded stand-in (labelled bounded): programs x invocation modes; per decoded blueprint the input quantifier is decided by SMT.",
             "Trusted: base64/zlib/json, S2/S3; draftsman's 2.0 converter is lossless for the fields the emitter sets.",
             "DESIGN §4 C07"),
+    "C17": ("other", "deductive verification of the library text: lib/math.facto parsed by the repo parser, evaluated by the S3 semantics to bit-vector terms and proved against the documented formulas by SMT for all int32 arguments; bounded enumeration of import graphs through the real pipeline",
+            "13 library obligations are discharged for all arguments in the documented domain; import behaviour is covered by an enumerated scope of import graphs (bounded stand-in).",
+            "Trusted: S3 as the meaning of Facto source (assumes C01), spec/libdocs.py as the meaning of the documentation, floor-division identity (self-checked).",
+            "DESIGN §4 C17"),
     "C16": ("other", "contract-based deductive verification (pyvc VCs with inductive loop invariants + variants on the real ForStmt.get_iteration_values) plus bounded stand-ins for the lowering plumbing",
             "The iteration sequence is proved for all (start, stop, step) and list iterators; the per-iteration scoping in the analyzer/lowerer is checked by bounded stand-ins, labelled as such.",
             "Trusted: pyvc encoding, composition lemma, 'IR equal up to fresh ids => same circuit'.",
